@@ -418,8 +418,61 @@ impl Part for Piecewise {
     }
 }
 
+
+/// "one-to-one": two identifiers are the same value exactly when their 4 bytes are the same. Equality, hashing and the
+/// set-valued packets (MAL keeps its ids in a hash set) must follow the bytes: (x, x with one bit flipped / one byte changed).
+pub struct Identity;
+impl Part for Identity {
+    type Case = ([u8; 4], [u8; 4]);
+    fn name(&self) -> &'static str {
+        "equality-follows-the-bytes"
+    }
+    fn check(&self, c: &([u8; 4], [u8; 4]), ev: &mut Local) -> Result<(), Fail> {
+        use std::hash::{Hash, Hasher};
+        let (Ok(a), Ok(b)) = (read_vehicle(c.0), read_vehicle(c.1)) else {
+            ev.class("one of the two is not an identifier");
+            return Ok(());
+        };
+        let same = c.0 == c.1;
+        ensure!((a == b) == same, "c13:equality-does-not-follow-the-bytes", "{:02x?} decodes to {a:?}, {:02x?} to {b:?}: == says {}", c.0, c.1, a == b);
+        if same {
+            let h = |v: &insim_core::vehicle::Vehicle| {
+                let mut s = std::collections::hash_map::DefaultHasher::new();
+                v.hash(&mut s);
+                s.finish()
+            };
+            ensure!(h(&a) == h(&b), "c13:equality-does-not-follow-the-bytes", "equal identifiers hash differently");
+        }
+        // both in one IS_MAL (mod ids only): the packet must keep two entries iff the bytes differ
+        if let (insim_core::vehicle::Vehicle::Mod(_), insim_core::vehicle::Vehicle::Mod(_)) = (&a, &b) {
+            let mut m = insim::insim::Mal::default();
+            let r1 = m.insert(a.clone());
+            let r2 = m.insert(b.clone());
+            ensure!(matches!(r1, Ok(true)) && matches!(r2, Ok(x) if x != same), "c13:equality-does-not-follow-the-bytes", "Mal::insert of {:02x?} then {:02x?} returned {r1:?}, {r2:?}", c.0, c.1);
+            ensure!(m.len() == if same { 1 } else { 2 }, "c13:equality-does-not-follow-the-bytes", "a MAL built from {:02x?} and {:02x?} holds {} ids", c.0, c.1, m.len());
+            let mut frame = vec![4u8, 65, 0, 2, 0, 0, 0, 0];
+            frame.extend_from_slice(&c.0);
+            frame.extend_from_slice(&c.1);
+            let codec = insim::net::Codec::new(insim::net::Mode::Compressed);
+            let mut buf = bytes::BytesMut::from(&frame[..]);
+            if let Ok(Some(insim::Packet::Mal(d))) = codec.decode(&mut buf) {
+                ensure!(same || d.len() == 2, "c13:equality-does-not-follow-the-bytes", "an IS_MAL frame carrying {:02x?} and {:02x?} decodes to {} ids", c.0, c.1, d.len());
+            }
+            ev.class("two mod ids in one MAL");
+        }
+        ev.nontrivial(c);
+        Ok(())
+    }
+    fn to_json(&self, c: &([u8; 4], [u8; 4])) -> Value {
+        json!({"a": hex(&c.0), "b": hex(&c.1)})
+    }
+    fn from_json(&self, v: &Value) -> Option<([u8; 4], [u8; 4])> {
+        Some((unhex(v.get("a")?.as_str()?)?.try_into().ok()?, unhex(v.get("b")?.as_str()?)?.try_into().ok()?))
+    }
+}
+
 pub fn parts() -> Vec<Box<dyn DynPart>> {
-    vec![Box::new(Exhaustive), Box::new(Names), Box::new(ViaPackets), Box::new(Piecewise)]
+    vec![Box::new(Exhaustive), Box::new(Names), Box::new(ViaPackets), Box::new(Piecewise), Box::new(Identity)]
 }
 
 pub fn run(run: &mut Run) {
@@ -464,6 +517,34 @@ pub fn run(run: &mut Run) {
         ];
         let n = run.budget(150_000, 5_000_000);
         run.prop(&ViaPackets, strat, n);
+    }
+    // identity: every listed / random identifier against itself, every single-bit neighbour and every single-byte neighbour
+    {
+        use proptest::prelude::*;
+        let mut pairs: Vec<([u8; 4], [u8; 4])> = vec![];
+        let mut seeds: Vec<[u8; 4]> = vec![[0xEF, 0xCD, 0xAB, 0x01], [0, 0, 0, 0], [b'X', b'R', b'T', 0], [0xFF; 4], [1, 0, 0, 0], [0, 0, 0, 0x80], [b'A', b'7', 0x9c, 0]];
+        seeds.extend((0..40u32).map(|i| (i.wrapping_mul(0x9E37_79B9) | 0x0100_0000).to_le_bytes()));
+        for s in &seeds {
+            pairs.push((*s, *s));
+            for bit in 0..32 {
+                let v = u32::from_le_bytes(*s) ^ (1 << bit);
+                pairs.push((*s, v.to_le_bytes()));
+            }
+            for pos in 0..4 {
+                for val in [0u8, 1, 0x7f, 0x80, 0xff] {
+                    let mut o = *s;
+                    o[pos] = val;
+                    pairs.push((*s, o));
+                }
+            }
+        }
+        run.list(&Identity, "equality-follows-the-bytes", pairs);
+        let strat = (any::<[u8; 4]>(), 0u32..32, any::<bool>()).prop_map(|(a, bit, same)| {
+            let b = if same { a } else { (u32::from_le_bytes(a) ^ (1 << bit)).to_le_bytes() };
+            (a, b)
+        });
+        let n = run.budget(100_000, 3_000_000);
+        run.prop(&Identity, strat, n);
     }
     run.enumerate(&Exhaustive, 65536, true, |i| Some(Case::Block(i as u16)));
 }
